@@ -173,7 +173,7 @@ func genWorld(seed uint64, idx int) *world {
 	}
 	s.Reverse = r.Bool()
 	if r.Chance(2, 3) {
-		s.Hist = uint64(rng.Pick(r, []int{1, 7, 100, 1000, 60000}))
+		s.Hist = uint64(rng.Pick(r, []int{1, 1, 7, 100, 1000, 60000}))
 	}
 	if r.Chance(1, 5) {
 		s.Limit = r.Range(1, 6)
@@ -1027,9 +1027,9 @@ func main() {
 		}
 		return
 	}
-	nworlds := 16
+	nworlds := 40
 	if *tier == "thorough" {
-		nworlds = 96
+		nworlds = 160
 	}
 	results := make([]*result, nworlds)
 	var wg sync.WaitGroup
